@@ -38,37 +38,52 @@ WEAK = {"le": "price", "cheapest": "price", "noPin": "price", "s2sFlag": "price"
 
 
 def closed_models(run):
-    w = 8 if vlib.NCPU >= 16 else 4
+    """Closed models, coverage, spec mutations: independent TLC jobs, run side by side."""
+    import concurrent.futures as cf
+    big = vlib.NCPU >= 16
+    w = 6 if big else 3
     models = [("Consolidation_MC.cfg", w), ("Consolidation_MCPods.cfg", w)]
     if run.tier == "thorough":
-        models += [("Consolidation_MCFull.cfg", 12), ("Consolidation_MC3.cfg", 12)]
-    zero = None
-    for cfg, workers in models:
-        r = run.closed_model("Consolidation", cfg, workers=workers, heap="4g", coverage=True, timeout=5400)
-        z = set(r.coverage_zero)
-        zero = z if zero is None else (zero & z)      # an action must be taken in at least one focus (churn: pods focus only)
+        models += [("Consolidation_MCFull.cfg", 8 if big else 4), ("Consolidation_MC3.cfg", 8 if big else 4)]
+    if run.tier == "quick":
+        # one TLC run per focus tries every weakening (Weak = "*price" / "*pods"): WeakDetect prints <<"REJ", rule>>
+        weak = ["Consolidation_WeakAll.cfg", "Consolidation_WeakAll3.cfg", "Consolidation_WeakAllPods.cfg"]
+    else:
+        weak = sorted(os.path.basename(c) for c in glob.glob(os.path.join(run.specdir, "Consolidation_Weak_*.cfg")))
+
+    def model(job):
+        cfg, workers = job
+        return cfg, run.closed_model("Consolidation", cfg, workers=workers, heap="4g", coverage=True, timeout=7200)
+
+    def mutation(cfg):
+        return cfg, run.tlc("Consolidation", cfg, workers=2, heap="3g", expect_violation=(run.tier != "quick"), timeout=7200)
+
+    zero, rejected, seen = None, [], set()
+    with cf.ThreadPoolExecutor(max_workers=3 if big else 2) as ex:
+        fm = [ex.submit(model, j) for j in models]
+        fw = [ex.submit(mutation, c) for c in weak]
+        for f in fm:
+            cfg, r = f.result()
+            z = set(r.coverage_zero)
+            zero = z if zero is None else (zero & z)   # an action must be taken in at least one focus (churn: pods focus only)
+        for f in fw:
+            cfg, r = f.result()
+            if run.tier == "quick":
+                seen |= set(re.findall(r'<<"REJ", "(\w+)">>', r.stdout))
+            else:
+                name = cfg[len("Consolidation_Weak_"):-4]
+                if not r.violated or not r.violated.startswith("Inv_C06_"):
+                    raise vlib.InfraError("spec mutation %s not rejected by TLC (guard conjunct not load-bearing)" % name)
+                rejected.append("%s->%s" % (name, r.violated))
     if zero:
         raise vlib.InfraError("vacuous closed model Consolidation, actions never taken in any configuration: %s" % sorted(zero))
-    rejected = []
     if run.tier == "quick":
-        # one TLC run per focus tries every weakening (Weak = "*"): WeakDetect prints <<"REJ", rule>>
-        seen = set()
-        for cfg in ("Consolidation_WeakAll.cfg", "Consolidation_WeakAllPods.cfg"):
-            r = run.tlc("Consolidation", cfg, workers=w, heap="4g", timeout=3600)
-            seen |= set(re.findall(r'<<"REJ", "(\w+)">>', r.stdout))
         missing = set(WEAK) - seen
         if missing:
             raise vlib.InfraError("spec mutations not rejected by TLC (guard conjunct not load-bearing): %s" % sorted(missing))
         rejected = sorted(WEAK)
-    else:
-        for cfg in sorted(glob.glob(os.path.join(run.specdir, "Consolidation_Weak_*.cfg"))):
-            name = os.path.basename(cfg)[len("Consolidation_Weak_"):-4]
-            r = run.tlc("Consolidation", os.path.basename(cfg), workers=w, heap="4g", expect_violation=True, timeout=3600)
-            if not r.violated or not r.violated.startswith("Inv_C06_"):
-                raise vlib.InfraError("spec mutation %s not rejected by TLC (guard conjunct not load-bearing)" % name)
-            rejected.append("%s->%s" % (name, r.violated))
-        if {x.split("->")[0] for x in rejected} != set(WEAK):
-            raise vlib.InfraError("Consolidation_Weak_*.cfg files do not cover %s" % sorted(set(WEAK) - {x.split("->")[0] for x in rejected}))
+    elif {x.split("->")[0] for x in rejected} != set(WEAK):
+        raise vlib.InfraError("Consolidation_Weak_*.cfg files do not cover %s" % sorted(set(WEAK) - {x.split("->")[0] for x in rejected}))
     run.notes.append("spec mutations rejected by TLC: " + ", ".join(rejected))
     run.extra_cov["spec_mutations_rejected"] = rejected
 
@@ -102,10 +117,30 @@ def check(run):
                 "directed churn during the validation wait, the spot-to-spot threshold ladder (13..20 cheaper types, minValues), a seeded "
                 "explorer (3-24 types, 2-3 zones, wild prices, pool requirements, policies). non-trivial = the real trace holds a judged "
                 "consolidation command")
+    import threading
+    err = []
+    th = None
     if os.environ.get("VERIF_FAST"):     # development loop only (mutation runs): skip the closed-model part
         run.notes.append("VERIF_FAST: closed models and spec mutations skipped")
     else:
-        closed_models(run)
+        # the closed-model jobs do not depend on the real code: they run next to the binding pipeline
+        def bg():
+            try:
+                closed_models(run)
+            except Exception as e:   # noqa: BLE001 - re-raised in the main thread
+                err.append(e)
+        th = threading.Thread(target=bg)
+        th.start()
+    try:
+        bind(run)
+    finally:
+        if th is not None:
+            th.join()
+    if err:
+        raise err[0]
+
+
+def bind(run):
     rng = random.Random(run.seed * 104729 + 6)
     price, pods = gen_grid(run)
     scen = [cc.grid_scenario(g, i) for i, g in enumerate(price)]
@@ -159,7 +194,8 @@ def judge(run, scen, prefix="c06"):
             if c["placed_new"]:
                 cov["placements_on_replacement"] += c["placed_new"]
         if sc["tags"].get("kind") == "churn":
-            cov["churn:%s" % ("command" if s["cmds"] else "no-command")] += 1
+            # the Method step runs with the churn inside its validation wait; the Round that follows sees the churned world
+            cov["churn:%s" % ("command" if any(c["e"] == "Cmd" for c in s["cmds"]) else "no-command")] += 1
     viol = run.validate("Consolidation_Trace", "Consolidation_Trace.cfg", files, heap="3g", par=PROCS[run.tier], timeout=3000)
     infra = [v for v in viol if v.get("guard", "").startswith("Infra_")]
     if infra:
@@ -167,14 +203,18 @@ def judge(run, scen, prefix="c06"):
     obs = collections.Counter("%s[%s]" % (v["guard"], v["sig"]) for v in viol if v.get("guard", "").startswith("Obs_"))
     for k, n in sorted(obs.items()):
         run.notes.append("observation (not judged): %s x%d" % (k, n))
-    # vacuity: the guarded command classes must actually occur
+    # vacuity: the guarded command classes must actually occur (a real-code violation found on the way stands on its own)
     need = ["single:replace", "single:delete", "multi:delete", "emptiness:delete", "started_by_controller_round",
             "placements_on_existing_nodes", "placements_on_replacement"]
     if prefix == "c06":
         need += ["multi:replace", "spot_to_spot:single", "on_demand_replaced:spot", "churn:command", "churn:no-command"]
         missing = [k for k in need if not cov[k]]
         if missing:
-            raise vlib.InfraError("vacuous binding: no real command of class %s was judged" % missing)
+            msg = "vacuous binding: no real command of class %s was judged" % missing
+            fresh = [v for v in run.viol if run.pmap.get(v.get("guard")) == run.pid and vlib.match_known(run.known, run.pid, v) is None]
+            if not fresh:
+                raise vlib.InfraError(msg)
+            run.notes.append(msg)
     run.extra_cov["judged_commands"] = dict(cov)
     pick = [s for s in summ if s["cmds"]]
     run.samples = [{"scenario": s["name"], "tags": s["tags"], "commands": s["cmds"][:3]} for s in pick[:: max(1, len(pick) // 5)]][:6]
